@@ -28,6 +28,7 @@ MANIFEST = dict(
 KNOWN_D2 = "EmptyMatchAtEndOfUnterminatedLastLine"
 KNOWN_MLMAX = "MultiLineMaxCountSummary"
 KNOWN_MLOEMPTY = "MultiLineOnlyMatchingDropsEmptyMatches"
+KNOWN_SUMBYTES = "SummaryStatsBytesPrintedSampledBeforeOutput"
 
 LINE_PATTERNS = [
     "a", "b+", "$", "^", r"\b", r"\B", "x*", "a|$", "c|$", "^$", r"\w+", "[ab]", "a.", ".", r"\s", "(?:ab)?", "b$",
@@ -119,7 +120,7 @@ def random_modes(rng, mx):
                sep=sep, pt=pt)]
     ms.append(mstd(heading=rng.random() < 0.4, path=rng.random() < 0.8, only=rng.random() < 0.25,
                    pm=rng.random() < 0.25, pm1=rng.random() < 0.5, mx=mx, col=rng.random() < 0.5, bo=rng.random() < 0.4,
-                   stats=rng.random() < 0.2, ss=rng.choice([None, b"", b"=="]), sc=rng.choice([None, b"--", b"~"]),
+                   stats=rng.random() < 0.35, ss=rng.choice([None, b"", b"=="]), sc=rng.choice([None, b"--", b"~"]),
                    sm=rng.choice([b":", b"|", b"::"]), sx=rng.choice([b"-", b"+"]), pt=pt))
     ms.append(mjson(mx=mx, always=rng.random() < 0.3))
     return [("r%d" % i, m) for i, m in enumerate(ms)]
@@ -344,6 +345,29 @@ def check_relations(ctx, c, outs, where):
 
 # ----------------------------------------------------------------------------- library level
 
+def check_bytes_printed(ctx, c, real, written):
+    """stats.bytes_printed of a search = the bytes that search wrote to the printer's writer"""
+    for k, m in enumerate(c["modes"]):
+        if m["t"] not in (0, 1) or not (m.get("stats") or (m["t"] == 0 and m["kind"] == 1)):
+            continue
+        for i, row in enumerate(real[k][1]):
+            if not row[0] or not row[3] or i >= len(written[k]):
+                continue
+            bp, w = row[3][0][3], written[k][i]
+            if bp == w:
+                continue
+            ctx.cov["bytes_printed_checked_mismatch"] = ctx.cov.get("bytes_printed_checked_mismatch", 0) + 1
+            if m["t"] == 0 and bp == 0:
+                # known: SummarySink::finish samples the byte counter before it writes the count / path line
+                ctx.known(KNOWN_SUMBYTES, "pattern=%r file=%r mode=%s: bytes_printed=0, written=%d"
+                          % (c["pattern"], c["files"][i][1], c["names"][k], w))
+            else:
+                ctx.violation("library: --stats 'bytes printed' of a search is not the number of bytes it wrote (mode %s)"
+                              % c["names"][k],
+                              dict(kind="relations", pattern=c["pattern"], flags=c["flags"], mode=m,
+                                   files=[(repr(p), repr(d)) for p, d in c["files"]], file_index=i,
+                                   bytes_printed=bp, bytes_written=w, case=pl.case_val(c), c=pl.jsonable(c)))
+
 def check_library(ctx, cases):
     res = pl.run_cases(ctx, cases)
     for ci, (c, r) in enumerate(zip(cases, res)):
@@ -378,6 +402,7 @@ def check_library(ctx, cases):
             if as_bytes(real[k][0]) if isinstance(real[k][0], bytes) else real[k][0]:
                 nontrivial = True
         ctx.note_case(line, nontrivial)
+        check_bytes_printed(ctx, c, real, r[6])
         feat = ctx.cov.setdefault("features", {})
         for n in ("multiline", "crlf", "invert", "word", "whole_line", "ignore_case", "passthru", "after", "binary"):
             if c["flags"].get(n):
@@ -633,6 +658,18 @@ def corpus():
     ]
 
 
+def corpus_binary():
+    """files with a NUL byte and a match, binary detection on, statistics on: the binary notice is output too"""
+    res = []
+    for binary in (1, 2):
+        for data in (b"a\x00b\na\n", b"a\nb\x00\na\n", b"x\na\x00\n"):
+            named = [("std_stats", mstd(stats=1)), ("std_stats_col", mstd(stats=1, col=1, heading=1)),
+                     ("count_stats", msum(0, stats=1, ez=0)), ("cm", msum(1, ez=0))]
+            res.append(dict(pattern="a", flags=dict(line_number=1, binary=binary), files=[(b"f1", data), (b"f2", b"a\n")],
+                            modes=[m for _, m in named], names=[n for n, _ in named], relations=False, mx=None))
+    return res
+
+
 def run(ctx):
     rng = ctx.rng
     ctx.cov["rule"] = ("a case = pattern (pool incl. empty-matching, anchors, word boundaries, line-spanning) x flags "
@@ -643,6 +680,7 @@ def run(ctx):
     # corpus + known findings replayed first
     cs = corpus()
     run_batch(ctx, cs, cli_every=1)
+    run_batch(ctx, corpus_binary(), cli_every=0)
     # relation cases
     n = ctx.count(1200)
     cases = [gen_case(rng, True) for _ in range(n)]
